@@ -56,6 +56,7 @@ def peewee_v2_to_sqlite_v1(datastore):
             bucket["hostname"],
             bucket["created"],
             bucket["name"],
+            bucket["data"],
         )
         bucket_events = pw_db.get_events(bucket_id, -1)
         # The new database assigns its own ids: an event that carries an id
